@@ -160,9 +160,18 @@ CHECKS.update({
         "technique": "reaching definitions + named-axis abstract interpretation + parameter-kind taint + dominators",
     },
 })
+CHECKS.update({
+    "C05": {
+        "text": "Group-lasso operator decided exactly as a piecewise closed form: the returned expression, resolved through reaching definitions, "
+                "is evaluated as a canonical rational form on the three regions of the (row norm, threshold) case split and must equal the "
+                "radial shrinkage (1-alpha/n)w, 0, 0. Group wrappers: one flattened row per group (abstract interpretation). Hierarchical "
+                "operator: canonical identity of every intermediate with the HIER-PROX formulas, one gather index for x* and w*, feasibility "
+                "derived algebraically. NOT decided: that the breakpoint chosen attains the minimum (value-level search).",
+        "note": "trusted: the textbook closed form of prox(alpha*||.||_2) and the LassoNet HIER-PROX formulas; numpy maximum/where/take_along_axis semantics.",
+        "technique": "piecewise canonical rational forms (case split on sign facts) + canonical formula identity + named-axis abstract interpretation",
+    },
+})
 NOT_APPLICABLE = {
-    "C05": "exact-minimiser property over all real matrices: value-level, no structural clause that is both necessary and "
-           "non-brittle beyond what C06 checks (DESIGN.md §7)",
 }
 for _p in ["C01","C06","C07","C11","C12","C13","C14","C15","C17","C18","C19","C20"]:
     if _p not in CHECKS:
